@@ -123,18 +123,17 @@ def random_items(seed, n):
 
 
 def run(ctx):
-    ctx.mc("text", MODULE, "MC_HttpUtil.cfg", overrides={"MaxFree": ctx.pick(1, 2), "Level": ctx.pick(1, 2)},
+    ctx.mc("text", MODULE, "MC_HttpUtil.cfg", timeout=ctx.pick(900, 1500), overrides={"MaxFree": ctx.pick(1, 2), "Level": ctx.pick(1, 2)},
            required_actions=["Extend"])
     mf = ctx.pick(3, 4)
-    states = ctx.gen_states("text", MODULE, "Gen_HttpUtil.cfg", overrides={"MaxFree": mf, "Level": ctx.pick(1, 2)})
+    states = ctx.gen_states("text", MODULE, "Gen_HttpUtil.cfg", timeout=ctx.pick(900, 1500), overrides={"MaxFree": mf, "Level": ctx.pick(1, 2)})
     paths, rel_items = td.paths_from_states(states)
     ctx.replay(paths, td.make_replayer(MODULE))
     rel_traces = td.record(MODULE, rel_items)
-    td.validate_calls(ctx, MODULE, "Trace_HttpUtil", "Trace_HttpUtil.cfg", rel_traces, label="s2c-rel")
     ctx.cov["exhaustive"] = True
     items = random_items(ctx.seed * 7919 + 43, ctx.pick(800, 24000))
     traces = td.record(MODULE, items)
-    td.validate_calls(ctx, MODULE, "Trace_HttpUtil", "Trace_HttpUtil.cfg", traces)
+    td.validate_both(ctx, MODULE, "Trace_HttpUtil", "Trace_HttpUtil.cfg", rel_traces, traces)
     ctx.cov["rule"] = ("inputs: request lines (6 methods x separators x 10 targets x separators x 12 versions), status lines "
                        "(12 versions x separators x 6 codes x separators x 8 reasons), parameter sets (<= 2 of 3 names x 6 token "
                        "values), 27 boundary timestamps x 6 argument forms, url_concat (3 bases x 10 queries x 3 fragments x 4 "
